@@ -69,8 +69,8 @@ type runner struct {
 	dead     bool // the harness deadline fired
 	nt       bool // non-trivial by the stated rule
 	// hold plans
-	cold      []JWK // the model cache when the hold hook was armed (before the downloads that are parked at it were answered)
-	armedIn   int   // phase in which the hook was armed
+	cold    []JWK // the model cache when the hold hook was armed (before the downloads that are parked at it were answered)
+	armedIn int   // phase in which the hook was armed
 }
 
 // call performs one VerifySignature call of a caller and records the result.
